@@ -78,7 +78,15 @@ def check_C04(ctx):
 
 
 def check_C07(ctx):
-    return _proc_layer_check(ctx, {'C07'}, 'activeness only if node exists, canonical inactive values, path independence')
+    res = _proc_layer_check(ctx, {'C07'}, 'activeness only if node exists, canonical inactive values, path independence')
+    # encoder-level activeness clauses (every registered connection encoder): same traces as C10
+    cod = _coding_check(ctx, 'C07.', 'connection encoders: activeness per corrected vector is path independent and equals the listed one')
+    res['violations'] += cod['violations']
+    res['coverage']['connection_encoder_level'] = {k: cod['coverage'][k] for k in ('settings', 'encoder_instances', 'evaluations', 'by_kind')}
+    res['coverage']['states'] += cod['coverage']['states']
+    res['coverage']['transitions'] += cod['coverage']['transitions']
+    res['coverage']['traces_validated_against_impl'] += cod['coverage']['traces_validated_against_impl']
+    return res
 
 
 def check_C14(ctx):
@@ -89,7 +97,53 @@ def check_C16(ctx):
     return _proc_layer_check(ctx, {'C16'}, 'design-variable nodes: value iff present, clamped, reported')
 
 
-CHECKS = {'C01': check_C01, 'C02': check_C02, 'C03': check_C03, 'C04': check_C04, 'C06': check_C06,
+def check_C09(ctx):
+    from harness import layer_conn
+    res = runner.memo('connsem', ctx, lambda: layer_conn.run(ctx))
+    viol = [{'clause': f['fails'][0][0], 'all_clauses': sorted({c[0] for c in f['fails']}), 'where': 'event %d' % f['fails'][0][1],
+             'payload': {'layer': 'connsem', 's': f['s']}} for f in res['fails'] if any(c[0].startswith('C09.') for c in f['fails'])]
+    cov = {'states': res['states'], 'transitions': res['transitions'], 'traces_validated_against_impl': res['n_traces'],
+           'samples': res['samples'], 'evaluations': res['patterns'], 'distinct_nontrivial': res['nontrivial'],
+           'rule': 'one trace per connector settings (all 1x1 alphabet settings, seeded sample of the 2x2 alphabet family with '
+                   'all existence patterns, seeded random up to 3x3 with exclusions, degree overrides and explicit parallel '
+                   'limits); per existence pattern the enumerated matrices, iter_matrices, validate_matrix on the whole '
+                   'cap box (sampled above 800) and the counts are recorded; non-trivial = distinct settings with >= 2 valid matrices',
+           'settings': res['n_settings'], 'existence_patterns': res['patterns'], 'valid_matrices_total': res['matrices'],
+           'matrices_validated': res['validated'], 'shapes': res['shapes'], 'exhaustive': False}
+    return {'level': 'model_checking', 'coverage': cov, 'violations': viol,
+            'assumptions': ['ConnSem.tla is a faithful reading of the connector-constraint semantics of docs/theory.md',
+                            'per-pair limits are logged and only constrained as far as the documentation constrains them (CapsOK)',
+                            'TLC evaluates the declarative definition (spec-as-oracle); no state-machine content here',
+                            'TLC, CommunityModules Json']}
+
+
+def _coding_check(ctx, prefix, what):
+    from harness import layer_coding
+    res = runner.memo('coding', ctx, lambda: layer_coding.run(ctx))
+    viol = [{'clause': f['clause'], 'where': 'event %d, encoder %s/%d %s + %s' % (f['at'], f['enc']['kind'], f['enc']['idx'], f['enc']['name'][:40], f['enc']['imp']),
+             'payload': {'layer': 'coding', 's': f['s'], 'enc': f['enc']}} for f in res['fails'] if f['clause'].startswith(prefix)]
+    cov = {'states': res['states'], 'transitions': res['transitions'], 'traces_validated_against_impl': res['n_traces'],
+           'samples': res['samples'], 'evaluations': res['decodes'], 'distinct_nontrivial': res['nontrivial'],
+           'rule': 'one trace per connector settings; every factory of the encoder registry (eager, lazy, enumerating, pattern) x '
+                   'default imputer and alternative imputers (one seeded alternative in quick, all in thorough; the two '
+                   'constraint-violation imputers excluded: returning an invalid design is their purpose); per existence pattern '
+                   '(up to 4 decoded per settings) every vector of the declared space (sampled above the cap), out-of-range and '
+                   'over-long vectors, each corrected vector decoded again, and the listed design vectors; non-trivial = settings '
+                   'with >= 2 valid matrices and at least one accepting encoder',
+           'settings': res['n_settings'], 'encoder_instances': res['encoders'], 'refusals': res['refused'],
+           'by_kind': res['by_kind'], 'failure_classes_before_attribution': res['classes'], 'exhaustive': False, 'what': what}
+    return {'level': 'model_checking', 'coverage': cov, 'violations': viol,
+            'assumptions': ['ConnSem.tla valid-matrix semantics', 'per-pair limits logged (CapsOK checked under C09)',
+                            'InvalidPatternEncoder at construction is the one accepted refusal',
+                            'violations of an (encoder, imputer, clause) class listed in known_findings.json are attributed to it',
+                            'TLC, CommunityModules Json']}
+
+
+def check_C10(ctx):
+    return _coding_check(ctx, 'C10.', 'faithful, total, onto coding; listed vectors; used values')
+
+
+CHECKS = {'C09': check_C09, 'C10': check_C10, 'C01': check_C01, 'C02': check_C02, 'C03': check_C03, 'C04': check_C04, 'C06': check_C06,
           'C07': check_C07, 'C14': check_C14, 'C16': check_C16}
 
 
@@ -99,6 +153,12 @@ def replay_payload(payload):
     if layer == 'graph':
         from harness import layer_graph
         return layer_graph.replay(payload['g'])
+    if layer == 'coding':
+        from harness import layer_coding
+        return layer_coding.replay(payload)
+    if layer == 'connsem':
+        from harness import layer_conn
+        return layer_conn.replay(payload['s'])
     if layer == 'proc':
         from harness import layer_proc
         return layer_proc.replay(payload['g'])
